@@ -30,8 +30,9 @@ RULES = {
     "R9": "subset_observed / subset_unobserved are the views of exactly the (un)observed rows, None only when there are none",
     "R10": "view discipline: ScreenSubset / Plate read the parent's per-experiment attributes only through their selection and never delegate a question to the parent screen",
     "R11": "every row number stored in the sampler's per-sample / per-treatment index lists derives from its row count at that moment",
+    "R12": "the derived screen attributes this property's code relies on (is_observed, size) have their documented definitions in ScreenBase and every override",
 }
-MIN = {"R1": 1, "R2": 3, "R3": 1, "R4": 2, "R5": 3, "R6": 1, "R7": 2, "R8": 1, "R9": 2, "R10": 15, "R11": 3}
+MIN = {"R1": 1, "R2": 3, "R3": 1, "R4": 2, "R5": 3, "R6": 1, "R7": 2, "R8": 1, "R9": 2, "R10": 15, "R11": 3, "R12": 2}
 TRUSTED = ["resolved call graph is an over-approximation of the dynamic one (typed resolution + name-CHA fallback + "
            "all overriding subclasses); classes chosen by name on the command line are subclasses of the declared bases",
            "numpy comparison semantics: `x >= 0` is False for NaN"]
@@ -803,7 +804,11 @@ def r10(ctx):
     common.view_discipline(ctx, "R10")
 
 
-RULE_FUNCS = [r1, r2, r3, r4, r5, r6, r7_c04, r8, r9, r10, r11]
+def r_derived(ctx):
+    common.derived_attributes(ctx, "R12", ['is_observed', 'size'])
+
+
+RULE_FUNCS = [r1, r2, r3, r4, r5, r6, r7_c04, r8, r9, r10, r11, r_derived]
 
 
 def _rep(a, b):
